@@ -1,0 +1,30 @@
+//go:build verif
+
+package frugal
+
+import "sync/atomic"
+
+// Yield points for the verification harness (build tag verif): a controller
+// installed with VerifSetYield is called at fixed points of the registry and
+// of Request so that it can park goroutines and release them in a chosen order.
+
+var verifYieldFn atomic.Value // of func(point string, opid uint64)
+
+// VerifSetYield installs (or, with nil, removes) the yield controller.
+func VerifSetYield(f func(point string, opid uint64)) {
+	if f == nil {
+		f = func(string, uint64) {}
+	}
+	verifYieldFn.Store(f)
+}
+
+func verifYield(point string, opid uint64) {
+	if f, ok := verifYieldFn.Load().(func(string, uint64)); ok && f != nil {
+		f(point, opid)
+	}
+}
+
+func verifYieldCtx(point string, ctx FContext) {
+	opid, _ := getOpID(ctx)
+	verifYield(point, opid)
+}
